@@ -82,6 +82,11 @@ CLAIMED = {
    note="Bounds: candidates<=3 (4), subset<=2 (3), traits<=2; contribution sum >= 1e-3; sqrt/cholesky/eigvals by contract; L1-norm, allele-frequency-distance/unavailability, multi-objective-genomic, OPV and genotype-builder latent functions are not encoded; EMBV/UC/OHV tables are given data here.",
    technique="symbolic execution on z3-term arrays (symnp) + z3 (QF_NRA) identities; contract stubs for sqrt/cholesky/eigvals; replay on real numpy",
    design="2/C05"),
+   "C07": dict(
+   text="Bounded symbolic model checking of the real selection-configuration classes (Subset/Integer/Binary/Real/SubsetMate SelectionConfiguration.sample_xconfig with tiled_choice, stochastic_universal_sampling, outcross_shuffle, axis_shuffle, xmapix) and of EstimatedBreedingValueSubsetSelection.select: the generator is a contract stub whose permutations/choices/offsets are solver variables (rotation classes of the shuffles plus enumerated start arrangements), breeding values and contribution vectors are symbolic reals, chosen decision vectors are enumerated; on every feasible path z3 / term evaluation decides: table shape = (ncross, nparent), entries only from the chosen solution (or its candidate crosses via the mate map), multiplicities even (subset/integer/binary/mate) or strictly within one of the proportional share (real, stochastic universal sampling), no single exchange of two entries lowers the number of self-pairings (independent recount), decision vector unchanged; with the library's exact sorting optimiser the chosen k-subset dominates every rejected candidate by breeding value and permuting the candidates permutes the choice (up to ties proved equal); with a stub multi-objective optimiser returning an arbitrary symbolic front the configuration is built from the front member maximising ndset_wt * ndset_trans.",
+   note="Bounds: ncross<=2 (3), nparent<=3 (one 1x5 case), candidates<=4, traits<=2; shuffles explored up to rotation classes plus 1 (30 thorough) enumerated start arrangements of a 2x3 table; pymoo NSGA-II itself, the OCS/UC/OHV/Random protocols' problem construction (their criteria are C05/C12/C18) and pandas-phenotype paths are outside.",
+   technique="symbolic execution on z3-term arrays (symnp) with a symbolic generator stub + z3 per-path obligations; replay on real numpy",
+   design="2/C07"),
    "C06": dict(
    text="Bounded symbolic model checking of the real exact optimisers and variation operators: SortingSubsetOptimizationAlgorithm, SteepestDescentSubsetHillClimber and SortingSteepestDescentSubsetHillClimber run on a real EBV subset problem with symbolic member scores (optionally a symbolic or scenario-fixed weight-cap constraint, or a non-separable family-penalty objective) and a contract-stubbed generator; every feasible path (sort orders incl. arbitrary tie-breaking of numpy's unstable sort, accepted exchanges) ends in z3-discharged assertions: requested size, distinct members from the candidate set, reported objective/violation = fresh evaluation, problem arrays untouched, brute-force optimum for the separable case, and no single exchange improving (violation, score) at termination. SubsetRandomSampling, ReducedExchangeCrossover, ReducedExchangeMutation and tiled_choice keep subsets feasible and leave the problem's candidate array untouched for arbitrary draws.",
    note="Bounds: candidates<=4 (5), subset<=2 (3), one objective. NOT decided: trajectories, feasibility, truthfulness and non-dominance of the pymoo GA/NSGA-II/NSGA-III runs (pymoo.optimize.minimize is concrete library code) and the integer SBX/PM wrappers; those clauses of C06 are outside this check.",
